@@ -23,16 +23,17 @@ def chal(v):
     return base64.urlsafe_b64encode(hashlib.sha256(v.encode()).digest()).decode().rstrip("=")
 
 
-def interleavings(n):
-    """all complete schedules of n threads [R t; D t] (R before D)."""
+def interleavings(n, phases=2):
+    """all complete schedules of n threads [R t; D t; ...] (phases actions each, in order): 'R t' runs request t
+    to its first yield point, every further 'D t' resumes it to the next yield point / completion."""
     out = []
 
     def go(pref, nxt):
-        if all(x == 2 for x in nxt):
+        if all(x == phases for x in nxt):
             out.append(list(pref))
             return
         for t in range(n):
-            if nxt[t] < 2:
+            if nxt[t] < phases:
                 pref.append(("R%d" if nxt[t] == 0 else "D%d") % t)
                 nxt[t] += 1
                 go(pref, nxt)
@@ -43,14 +44,14 @@ def interleavings(n):
     return out
 
 
-def random_interleaving(rng, n, pexp=0.0):
+def random_interleaving(rng, n, pexp=0.0, phases=2):
     nxt = [0] * n
     out = []
-    while any(x < 2 for x in nxt):
+    while any(x < phases for x in nxt):
         if pexp and rng.random() < pexp:
             out.append("E")
             continue
-        t = rng.choice([i for i in range(n) if nxt[i] < 2])
+        t = rng.choice([i for i in range(n) if nxt[i] < phases])
         out.append(("R%d" if nxt[t] == 0 else "D%d") % t)
         nxt[t] += 1
     return out
@@ -130,7 +131,7 @@ def expected_status(kind, p, rq):
     return 200
 
 
-def build_cases(ck, quick):
+def build_cases(ck, quick, gaps=0):
     rng = ck.rng
     cases = []
 
@@ -147,9 +148,14 @@ def build_cases(ck, quick):
         add(k, ["R0", "R1", "D0", "D1"], 2, p=PENDINGS[0], reqs=good0, tag="corpus")
         add(k, ["R0", "R1", "D1", "D0"], 2, p=PENDINGS[0], reqs=good0, tag="corpus")
         add(k, ["R0", "D0", "R1", "D1"], 2, p=PENDINGS[0], reqs=good0, tag="corpus")
-    # every interleaving of 2 and 3 requests
-    for n in (2, 3):
-        for s in interleavings(n):
+    ph = 2 + gaps
+    if gaps:
+        # caches.Delete is not one critical section: requests can also be parked inside it
+        for k in kinds:
+            add(k, ["R0", "R1"] + ["D0", "D1"] * (ph - 1), 2, p=PENDINGS[0], reqs=good0, tag="corpus")
+    # every interleaving of 2 and 3 requests (3 only while a request has two atomic actions)
+    for n in ((2, 3) if not gaps else (2,)):
+        for s in interleavings(n, ph):
             for k in kinds:
                 p = rng.choice(PENDINGS)
                 bias = rng.choice([1.0, 1.0, 0.6, 0.3])
@@ -159,7 +165,7 @@ def build_cases(ck, quick):
         n = rng.choice([2, 3, 4, 4] if quick else [2, 3, 4, 5, 6])
         k = rng.choice(kinds)
         p = rng.choice(PENDINGS)
-        add(k, random_interleaving(rng, n, rng.choice([0, 0.15, 0.3])), n, present=rng.random() > 0.1, p=p,
+        add(k, random_interleaving(rng, n, rng.choice([0, 0.15, 0.3]), ph), n, present=rng.random() > 0.1, p=p,
             reqs=[gen_req(rng, p, rng.choice([1.0, 0.6])) for _ in range(n)], tag="sampled")
     # PKCE decisions on their own
     vers = ["", V0, V0[:-1], V0 + "A", V0.lower(), "a", "éü", "x" * 128, " " + V0]
@@ -175,8 +181,8 @@ def build_cases(ck, quick):
                           "reqs": [{"client": "", "secret": "", "redirect": "", "verifier": x} for x in vers]})
     # free-running goroutines (no forced schedule)
     for k in ("stress-code", "stress-refresh"):
-        cases.append({"id": len(cases), "kind": k, "sched": [], "present": True, "rounds": 150 if quick else 3000,
-                      "pending": FN_PENDING, "reqs": [FN_REQ] * 4, "tag": "stress"})
+        cases.append({"id": len(cases), "kind": k, "sched": [], "present": True, "rounds": 1000000, "racers": 8,
+                      "budget_ms": 5000 if quick else 60000, "pending": FN_PENDING, "reqs": [FN_REQ] * 4, "tag": "stress"})
     return cases
 
 
@@ -212,7 +218,15 @@ def instrument(ck):
     dst = os.path.join(ck.work, "codes_instrumented.go")
     rc, out = vf.sh([binp, os.path.join(vf.REPO, PKG, "codes.go"), dst], timeout=120)
     if rc != 0:
-        return None, out
+        dst = None
+    # premise of the model: caches.Delete is ONE critical section under the write lock
+    ddst = os.path.join(ck.work, "delete_instrumented.go")
+    rc2, out2 = vf.sh([binp, "-delete", os.path.join(vf.REPO, "internal/caches/delete.go"), ddst], timeout=120)
+    ck.delete_state = ("shape", 0, None, out2.strip())
+    if rc2 == 0 and "DELETE-ATOMIC" in out2:
+        ck.delete_state = ("atomic", 0, None, out2.strip())
+    elif rc2 == 0 and "DELETE-GAPS" in out2:
+        ck.delete_state = ("gaps", int(out2.split("DELETE-GAPS")[1].split()[0]), ddst, out2.strip())
     return dst, out
 
 
@@ -225,7 +239,8 @@ def run(ck):
                       "variations; plus free-running goroutine rounds. distinct_nontrivial = distinct (kind, schedule, request "
                       "fields) cases in which at least two requests saw the entry present at the same time (both reached the "
                       "yield point before either deleted)")
-    ck.assume("the Go scheduler interleaves the requests only between caches.Find and caches.Delete (each runs under cacheLock for its whole body)",
+    ck.assume("the Go scheduler interleaves the requests only between caches.Find and caches.Delete; that caches.Delete is one critical section under "
+              "cacheLock.Lock() is CHECKED on the source on every run (instrument -delete); that caches.Find is one is assumed (C28)",
               "a code / refresh token string is stored at most once (32 random bytes)",
               "SHA-256 is an arbitrary function in the theorems (Section variable); the correspondence instantiates it with the real digests",
               "client authentication and grant-type checks before consume are not modelled: such requests never reach the cache (checked on the real code)")
@@ -241,13 +256,19 @@ def run(ck):
     if inst:
         mapping[PKG + "/zz_verif_c23_hook_test.go"] = os.path.join(vf.HARNESS, "C23", "c23_hook_test.go")
         replace = {PKG + "/codes.go": inst}
+    dstate, gaps, dpath, dlog = ck.delete_state
+    if inst and dstate == "gaps":
+        mapping[PKG + "/zz_verif_c23_hook_caches_test.go"] = os.path.join(vf.HARNESS, "C23", "c23_hook_caches_test.go")
+        replace["internal/caches/delete.go"] = dpath
+    else:
+        gaps = 0
     ok, binp = vf.go_test_build(ck.work, PKG, mapping, "c23.test", replace=replace)
     if not ok:
         ck.violation("harness-build", "harness for %s does not build:\n%s" % (PKG, binp[-1500:]), replay={"log": binp[-3000:]},
                      found_input=False)
         return
 
-    cases = build_cases(ck, quick)
+    cases = build_cases(ck, quick, gaps)
     if ck.replay_file:
         rp = json.load(open(ck.replay_file))["replay"]
         if isinstance(rp, dict) and "case" in rp:
@@ -269,6 +290,7 @@ def run(ck):
     nontriv = set()
     dist = {}
     oracle_hit = False
+    stress_rounds = 0
     for c in cases:
         r = res[c["id"]]
         dist[c["tag"] + ":" + c["kind"]] = dist.get(c["tag"] + ":" + c["kind"], 0) + 1
@@ -293,10 +315,16 @@ def run(ck):
             continue
         what = "authorization code" if "code" in c["kind"] else "refresh token"
         if c["kind"].startswith("stress"):
+            stress_rounds += r.get("rounds", 0)
             if r["maxsucc"] > 1:
                 oracle_hit = True
                 ck.violation("double-redemption-" + ("code" if "code" in c["kind"] else "refresh"),
-                             "%d of 4 free-running concurrent requests redeemed the same %s" % (r["maxsucc"], what), replay={"case": pub})
+                             "%d of %d free-running concurrent requests redeemed the same %s (round %d of the stress stage)" % (
+                                 r["maxsucc"], c["racers"], what, r.get("rounds", 0)), replay={"case": pub})
+            if r.get("nowinner"):
+                oracle_hit = True
+                ck.violation("rightful-request-refused", "in %d stress rounds none of %d concurrent requests could redeem a present %s" % (
+                    r["nowinner"], c["racers"], what), replay={"case": pub})
             continue
         n200 = sum(1 for s in r["status"] if s == 200)
         if sum(1 for y in r["yielded"] if y) >= 2:
@@ -306,8 +334,11 @@ def run(ck):
         if n200 > 1:
             oracle_hit = True
             ck.violation("double-redemption-" + ("code" if "code" in c["kind"] else "refresh"),
-                         "%d concurrent requests were all answered with tokens for ONE %s (%s, schedule %s; R = lookup, D = delete)" % (
-                             n200, what, c["kind"], " ".join(c["sched"])), replay={"case": pub})
+                         "%d concurrent requests were all answered with tokens for ONE %s (%s, schedule %s; %s)" % (
+                             n200, what, c["kind"], " ".join(c["sched"]),
+                             "R = lookup, D = delete" if not gaps else "R t = run request t to its first yield point, D t = resume it to the next one; yield points: "
+                             "between caches.Find and caches.Delete in consume*, and in the %d gap(s) between the lock regions inside caches.Delete; "
+                             "requests still parked at the end are released in order" % gaps), replay={"case": pub})
         for t, st in enumerate(r["status"]):
             rq = c["reqs"][t]
             if st == 200:
@@ -322,7 +353,7 @@ def run(ck):
                 ck.violation("status-mismatch", "handler result and written status differ (%s, request %d: %d)" % (c["kind"], t, st), replay={"case": pub})
         # a lone rightful request on a present entry must be served (the repair must not make redemption impossible)
         first = c["sched"][0] if c["sched"] else ""
-        if c["present"] and first.startswith("R") and len(c["sched"]) > 1 and c["sched"][1] == "D" + first[1:]:
+        if not gaps and c["present"] and first.startswith("R") and len(c["sched"]) > 1 and c["sched"][1] == "D" + first[1:]:
             t = int(first[1:])
             rq = c["reqs"][t]
             if (c["kind"].endswith("-fn") or auth_class(rq) == "ok") and expected_status(c["kind"], c["pending"], rq) == 200 and r["status"][t] != 200:
@@ -339,9 +370,10 @@ def run(ck):
                                  replay={"case": pub})
 
     forced = [c for c in cases if c["kind"] not in ("pkce", "stress-code", "stress-refresh")]
-    ck.cov["evaluations"] = sum(len(c["reqs"]) for c in cases if not c["kind"].startswith("stress")) + sum(c["rounds"] * 4 for c in cases if c["kind"].startswith("stress"))
+    ck.cov["evaluations"] = sum(len(c["reqs"]) for c in cases if not c["kind"].startswith("stress")) + stress_rounds * 8
     ck.cov["distinct_nontrivial"] = len(nontriv)
-    ck.cov["input_distribution"] = dict(dist, instrumented=bool(out.get("instrumented")),
+    ck.cov["input_distribution"] = dict(dist, instrumented=bool(out.get("instrumented")), caches_delete=dlog[-120:],
+                                        stress_rounds_of_8_racers=stress_rounds,
                                         forced_schedules=len(forced),
                                         with_expiry=sum(1 for c in forced if "E" in c["sched"]),
                                         entry_absent=sum(1 for c in forced if not c["present"]),
@@ -356,8 +388,17 @@ def run(ck):
         if not oracle_hit:
             ck.violation("instrumentation-anchor", "the yield point could not be inserted (no caches.Find followed by caches.Delete in consumeCode/consumeRefreshToken): "
                          "the interleavings of the model's two atomic actions can no longer be forced on the code; sequential runs and %d free-running rounds showed no double redemption.\n%s" % (
-                             sum(c["rounds"] for c in cases if c["kind"].startswith("stress")), ilog[-400:]),
+                             stress_rounds, ilog[-400:]),
                          replay={"instrumenter": ilog[-1000:]}, found_input=False)
+        return
+
+    # ---------------- premise of the theorems: caches.Delete is one critical section (lookup + removal + result)
+    if dstate != "atomic":
+        if not oracle_hit:
+            ck.violation("delete-atomicity", "caches.Delete is no longer one critical section under cacheLock.Lock() (%s): the invariant of C23_single_use "
+                         "('at most one Delete observes the entry present') is not tied to the code any more; %d forced schedules with requests parked "
+                         "inside Delete and %d free-running rounds showed no double redemption" % (dlog[-200:], len(forced), stress_rounds),
+                         replay={"instrumenter": dlog[-1000:]}, found_input=False)
         return
 
     # ---------------- correspondence: model (vm_compute) vs implementation
